@@ -78,5 +78,19 @@ func (u *NodeURI) RemoteHost() string {
 		return ""
 	}
 
-	return (*url.URL)(u).Hostname()
+	return canonicalHost((*url.URL)(u).Hostname())
+}
+
+// canonicalHost returns one spelling for every way of writing the same host:
+// IP literals in their canonical form (case, zero compression; a zone is
+// kept), names in lower case. Hosts are compared as strings by the callers.
+func canonicalHost(host string) string {
+	zone := ""
+	if i := strings.IndexByte(host, '%'); i >= 0 {
+		host, zone = host[:i], host[i:]
+	}
+	if ip := net.ParseIP(host); ip != nil {
+		return ip.String() + zone
+	}
+	return strings.ToLower(host) + zone
 }
